@@ -40,7 +40,7 @@ static FULL: std::sync::atomic::AtomicBool = std::sync::atomic::AtomicBool::new(
 fn box_of<const N: usize>(name: &str) -> [Comp; N] { let b = space_box(name); let mut o = [Comp::R(0.0, 0.0); N]; for i in 0..N { o[i] = b[i]; } o }
 fn cols<T: F, const N: usize>(name: &str) -> Vec<[T; N]> {
     let base = name.split(':').next().unwrap();
-    let (small, sl) = (!FULL.load(std::sync::atomic::Ordering::Relaxed), if base == "Hwb" || base == "Okhwb" { Some((1, 2)) } else { None });
+    let (small, sl) = (!FULL.load(std::sync::atomic::Ordering::Relaxed), None);
     with_interior(base, &box_of::<N>(name), small, sl, lattice_colours::<T, N>(&box_of::<N>(name), small, sl))
 }
 
@@ -217,7 +217,6 @@ fn diff_loop<T: F, const N: usize>(out: &mut Out, key: &str, name: &str, full: b
         for i in 0..N { let (lo, hi) = range_of(&bx[i]); let (lo2, hi2) = if let Comp::Hue = bx[i] { (0.0, 360.0) } else { (lo, hi) };
             a[i] = T::of(rng.range(lo2, hi2)); ok &= admissible(a[i].to64(), lo, hi); }
         let base_name = key.split(':').next().unwrap();
-        if (base_name == "Hwb" || base_name == "Okhwb") && a[1].to64() + a[2].to64() > 1.0 { ok = false; }
         if ok { base.push(a); }
     }
     let mut pair = |a: [T; N], b: [T; N], cls: &str| {
